@@ -13,10 +13,14 @@ package obfs2
 
 import (
 	"bytes"
+	crand "crypto/rand"
+	"encoding/binary"
 	"fmt"
+	"io"
 	"net"
 	"os"
 	"strings"
+	"sync"
 	"testing"
 
 	pt "gitlab.torproject.org/tpo/anti-censorship/pluggable-transports/goptlib"
@@ -99,7 +103,44 @@ func vfRefSetup(n *wire.Net, s wire.Side, p refobfs2.Params, out **refobfs2.Conn
 	}
 }
 
+// vfForcer sits in front of crypto/rand.Reader for the duration of a case.  When
+// armed, the next 8-byte read (the Int63 behind csrand.IntRange, i.e. the
+// padding length drawn by the real side) is answered with a chosen value in its
+// top 32 bits; everything else passes through to the deterministic stream.
+// This only steers which of the legal random choices the code under test makes;
+// whatever it then sends is judged by the oracles.
+type vfForcer struct {
+	inner io.Reader
+	mu    sync.Mutex
+	armed bool
+	val   uint32
+}
+
+func (f *vfForcer) Read(p []byte) (int, error) {
+	f.mu.Lock()
+	if f.armed && len(p) == 8 {
+		f.armed = false
+		v := f.val
+		f.mu.Unlock()
+		binary.BigEndian.PutUint32(p[0:4], v&0x7fffffff)
+		binary.BigEndian.PutUint32(p[4:8], 0x5eed5eed)
+		return 8, nil
+	}
+	f.mu.Unlock()
+	return f.inner.Read(p)
+}
+
+func (f *vfForcer) arm(v int) {
+	f.mu.Lock()
+	f.armed = v >= 0
+	if v >= 0 {
+		f.val = uint32(v)
+	}
+	f.mu.Unlock()
+}
+
 type vfEnd struct {
+	force int // value steering the real side's PADLEN draw (-1: leave it to the stream)
 	side  wire.Side
 	real  bool
 	ep    *drive.Endpoint
@@ -157,7 +198,7 @@ func vfFirstDiff(a, b []byte) int {
 func TestVerifC14Stream(t *testing.T) {
 	vfC14Anchor()
 	c := ev.For("C14")
-	c.Rule("stream: lock-step cases over the gated wire: arrangement (real<->real, real client<->reference server, reference client<->real server), reference seed/padding length (0, 1, 8191, 8192, uniform), deterministic randomness of the real side, 6..40 actions write(side,n) / release(direction, plan: 1 byte, few, k, all, up to seed/magic/header/handshake/write boundary -1/0/+1, dribble) / readSmall; oracle after every released segment and write at quiescence: reader holds exactly plaintext[:released-handshakeLen]; non-trivial = mixed arrangement or >= 3 segments inside the 8-byte header; fingerprint = config + action list")
+	c.Rule("stream: lock-step cases over the gated wire: arrangement (real<->real, real client<->reference server, reference client<->real server), reference seed/padding length (0, 1, 8191, 8192, uniform), deterministic randomness of the real side, 6..40 actions write(side,n) / release(direction, plan: 1 byte, few, k, all, up to seed/magic/header/handshake/write boundary -1/0/+1, dribble) / readSmall; oracle after every released segment and write at quiescence: reader holds exactly plaintext[:released-handshakeLen]; non-trivial = mixed arrangement or >= 3 segments inside the 8-byte header; fingerprint = config + action list; in ~55 % of the real sides the padding length drawn is steered to 0, 1, 8191, 8192 (and 8193, which a correct sender maps to 0) by answering the 8-byte read behind csrand.IntRange")
 	c.Assume("SHA-256 and AES-CTR of the Go standard library are trusted (shared with the reference peer)")
 	c.Assume("pad-key IV = MAC(label, seed)[16:32] as deployed by obfsproxy (taken from the code under test; the written specification only names the key)")
 	c.Floor("arr-realC-refS/stream", 0.22)
@@ -166,6 +207,8 @@ func TestVerifC14Stream(t *testing.T) {
 	c.Floor("hdr>=3seg/stream", 0.10)
 	c.Floor("coalesced-hs+data/stream", 0.08)
 	c.Floor("refpad-extreme/mixed", 0.25)
+	c.Floor("realpad-8192/stream", 0.08) // the steering of the real side's padding draw works
+	c.Floor("realpad-0/stream", 0.08)
 	rapid.Check(t, func(rt *rapid.T) { vfC14StreamCase(rt, c) })
 }
 
@@ -183,9 +226,21 @@ func vfC14StreamCase(rt *rapid.T, c *ev.Collector) {
 		smallWire[i] = rapid.SampledFrom([]int{0, 0, 0, 0, 0, 1, 2, 5, 16}).Draw(rt, "wireReadCap")
 	}
 	scenario := rapid.SampledFrom([]string{"none", "none", "none", "coalesceA", "coalesceB"}).Draw(rt, "scenario")
+	// Steer the padding length the real sides draw towards the extremes of the
+	// legal range in part of the cases (MAX_PADDING+1 wraps to 0 in a correct sender).
+	for _, e := range ends {
+		e.force = -1
+		if e.real {
+			e.force = rapid.SampledFrom([]int{-1, -1, -1, -1, -1, 0, 1, refobfs2.MaxPadding - 1, refobfs2.MaxPadding, refobfs2.MaxPadding, refobfs2.MaxPadding + 1}).Draw(rt, "force")
+		}
+	}
 
 	detrand.Seed(rk)
 	defer detrand.Real()
+	oldRand := crand.Reader
+	forcer := &vfForcer{inner: oldRand}
+	crand.Reader = forcer
+	defer func() { crand.Reader = oldRand }()
 	n := wire.New()
 	defer n.Shutdown()
 	for i, k := range smallWire {
@@ -193,8 +248,8 @@ func vfC14StreamCase(rt *rapid.T, c *ev.Collector) {
 	}
 	var hist []string
 	fail := func(sig, format string, a ...any) {
-		rt.Fatalf("VIOL[%s]: %s\n  arrangement=%s detrand=%d refA=%+v refB=%+v wireReadCap=%v\n  history: %s", sig, fmt.Sprintf(format, a...),
-			vfArrNames[arr], rk, ends[0].par, ends[1].par, smallWire, strings.Join(hist, " "))
+		rt.Fatalf("VIOL[%s]: %s\n  arrangement=%s detrand=%d refA=%+v refB=%+v wireReadCap=%v steeredPadDraw=[%d %d]\n  history: %s", sig, fmt.Sprintf(format, a...),
+			vfArrNames[arr], rk, ends[0].par, ends[1].par, smallWire, ends[0].force, ends[1].force, strings.Join(hist, " "))
 	}
 	quiesce := func() {
 		if err := n.WaitQuiescent(wire.A, wire.B); err != nil {
@@ -213,12 +268,15 @@ func vfC14StreamCase(rt *rapid.T, c *ev.Collector) {
 	}
 	// The server is started (and parked) before the client so that the order in
 	// which the real sides consume randomness is fixed.
+	forcer.arm(ends[1].force)
 	start(ends[1])
 	if err := n.WaitQuiescent(wire.B); err != nil {
 		fail("c14-wedge", "server did not park: %v", err)
 	}
+	forcer.arm(ends[0].force)
 	start(ends[0])
 	quiesce()
+	forcer.arm(-1)
 	for _, e := range ends {
 		e.hsLen = int(n.Written(e.side))
 		if e.real {
@@ -480,9 +538,9 @@ func vfC14StreamCase(rt *rapid.T, c *ev.Collector) {
 		if e.real {
 			switch e.hsLen - 24 {
 			case 0:
-				cls = append(cls, "realpad-0")
+				cls = append(cls, "realpad-0", "realpad-extreme")
 			case refobfs2.MaxPadding:
-				cls = append(cls, "realpad-8192")
+				cls = append(cls, "realpad-8192", "realpad-extreme")
 			}
 			continue
 		}
@@ -501,7 +559,7 @@ func vfC14StreamCase(rt *rapid.T, c *ev.Collector) {
 	}
 	nt := arr != vfArrRR || hdr3
 	h := strings.Join(hist, " ")
-	c.Case(ev.Hash(arr, rk, fmt.Sprint(ends[0].par), fmt.Sprint(ends[1].par), h), nt, cls, func() any {
+	c.Case(ev.Hash(arr, rk, fmt.Sprint(ends[0].par), fmt.Sprint(ends[1].par), ends[0].force, ends[1].force, h), nt, cls, func() any {
 		hh := h
 		if len(hh) > 600 {
 			hh = hh[:600] + fmt.Sprintf(" ...(%d actions)", len(hist))
